@@ -82,61 +82,108 @@ class _Vec:
         self.comps, self.cross_of = list(comps), cross_of
 
 
+from ..pyreader import PyReader, Raised  # noqa: E402
+
+
+class _VecPy(PyReader):
+    log_hooks = False  # True: operand hooks are logged and answer "no rewrite" (R2/R4); False: they are evaluated (R1)
+    hook_log: list = []
+    ordered = None  # what the stand-in for _ordered_mul answers: {sign: {(sorted vectors): factor}}
+
+    def is_instance(self, v, names, n):
+        if isinstance(v, _Vec):
+            if "VectorCross" in names and v.cross_of is not None:
+                return True
+            atomic = {"VectorSymbol", "AppliedVectorFunction", "VectorDerivative"}
+            if v.cross_of is None and (set(names) & (atomic | {"VectorExpr"})):
+                return True
+            if v.cross_of is not None and "VectorExpr" in names:
+                return True
+            return False
+        if isinstance(v, (T, int)):
+            return False
+        self.fail(n, "isinstance outside the modelled classes")
+
+    def hook_method(self, base, attr, args, kwargs, n):
+        if isinstance(base, _Vec) and attr == "doit":
+            return base
+        if isinstance(base, _Vec) and attr in ("_eval_vector_dot", "_eval_vector_cross") and self.log_hooks:
+            self.hook_log.append((base, attr, list(args)))
+            return None  # no rewrite here: what the hooks of VectorCross answer is rule R1's business, which operands they are given is R4's
+        return NotImplemented
+
+
+    def hook_attr(self, base, attr, n):
+        if isinstance(base, _Vec) and attr == "args" and base.cross_of is not None:
+            return list(base.cross_of)
+        return NotImplemented
+
+    def hook_unary(self, o, v, n):
+        if isinstance(v, _Vec) and isinstance(o, ast.USub):
+            return _Vec([op("neg", x) for x in v.comps])
+        return NotImplemented
+
+    def hook_binop(self, o, l, r, n):
+        lv, rv = isinstance(l, _Vec), isinstance(r, _Vec)
+        if not (lv or rv):
+            return NotImplemented
+        def zero(x):
+            return (isinstance(x, int) and x == 0) or (isinstance(x, T) and x.op == "num" and x.val == 0)
+        if isinstance(o, (ast.Add, ast.Sub)) and lv != rv and zero(r if lv else l):
+            return l if lv else (r if isinstance(o, ast.Add) else _Vec([op("neg", x) for x in r.comps]))
+        if isinstance(o, ast.Mult) and lv != rv:
+            s_, v_ = (r, l) if lv else (l, r)
+            return _Vec([op("mul", self.scalar(s_, n), x) for x in v_.comps])
+        if isinstance(o, ast.Div) and lv and not rv:
+            return _Vec([op("div", x, self.scalar(r, n)) for x in l.comps])
+        if isinstance(o, (ast.Add, ast.Sub)) and lv and rv:
+            return _Vec([op("add" if isinstance(o, ast.Add) else "sub", a_, b_) for a_, b_ in zip(l.comps, r.comps)])
+        self.fail(n, "vector arithmetic outside the decidable class")
+
+    def hook_call(self, n, env, fns):
+        name = (dotted(n.func) or "").split(".")[-1]
+        if name == "cls":
+            cv = env.get("cls")
+            name = cv[1] if isinstance(cv, tuple) and len(cv) == 2 and cv[0] == "class" else "VectorCross"
+        if name == "isinstance" and len(n.args) == 2:
+            return self.is_instance(self.ev(n.args[0], env, fns), self.class_names(n.args[1]), n)
+        if name == "_check_vector" and len(n.args) == 1:
+            return self.ev(n.args[0], env, fns)
+        if name == "_ordered_mul" and self.ordered is not None:
+            for a in n.args:
+                self.ev(a, env, fns)
+            return {k_: dict(v_) for k_, v_ in self.ordered.items()}
+        if name == "len" and len(n.args) == 1:
+            v = self.ev(n.args[0], env, fns)
+            if isinstance(v, (list, tuple, dict)):
+                return len(v)
+        if name in ("VectorDot", "VectorCross", "VectorMixedProduct", "VectorNorm") and name not in self.functions:
+            vals = []
+            for a in n.args:
+                if isinstance(a, ast.Starred):
+                    vals += list(self.ev(a.value, env, fns))
+                else:
+                    vals.append(self.ev(a, env, fns))
+            if not all(isinstance(v, _Vec) for v in vals):
+                self.fail(n, "product of non-vectors")
+            cs = [v.comps for v in vals]
+            if name == "VectorDot" and len(cs) == 2:
+                return t_dot(*cs)
+            if name == "VectorCross" and len(cs) == 2:
+                return _Vec(t_cross(*cs), cross_of=(vals[0], vals[1]))
+            if name == "VectorMixedProduct" and len(cs) == 3:
+                return t_mixed(*cs)
+            if name == "VectorNorm" and len(cs) == 1:
+                return t_norm(cs[0])
+            self.fail(n, "arity")
+        return NotImplemented
+
+
+
 def _r1_rules(run: Run, mod, cross_cls: ast.ClassDef) -> None:
     """the operand hooks of VectorCross are EVALUATED for the four combinations (operand is / is not itself a cross product) on generic component vectors"""
-    from ..pyreader import PyReader, Raised
 
-    class R(PyReader):
-
-        def hook_attr(self, base, attr, n):
-            if isinstance(base, _Vec) and attr == "args" and base.cross_of is not None:
-                return list(base.cross_of)
-            return NotImplemented
-
-        def hook_unary(self, o, v, n):
-            if isinstance(v, _Vec) and isinstance(o, ast.USub):
-                return _Vec([op("neg", x) for x in v.comps])
-            return NotImplemented
-
-        def hook_binop(self, o, l, r, n):
-            lv, rv = isinstance(l, _Vec), isinstance(r, _Vec)
-            if not (lv or rv):
-                return NotImplemented
-            if isinstance(o, ast.Mult) and lv != rv:
-                s_, v_ = (r, l) if lv else (l, r)
-                return _Vec([op("mul", self.scalar(s_, n), x) for x in v_.comps])
-            if isinstance(o, ast.Div) and lv and not rv:
-                return _Vec([op("div", x, self.scalar(r, n)) for x in l.comps])
-            if isinstance(o, (ast.Add, ast.Sub)) and lv and rv:
-                return _Vec([op("add" if isinstance(o, ast.Add) else "sub", a_, b_) for a_, b_ in zip(l.comps, r.comps)])
-            self.fail(n, "vector arithmetic outside the decidable class")
-
-        def hook_call(self, n, env, fns):
-            name = (dotted(n.func) or "").split(".")[-1]
-            if name == "cls":
-                name = "VectorCross"
-            if name == "isinstance" and len(n.args) == 2:
-                v = self.ev(n.args[0], env, fns)
-                names = self.class_names(n.args[1])
-                if isinstance(v, _Vec) and names == ["VectorCross"]:
-                    return v.cross_of is not None
-                self.fail(n, "isinstance outside the modelled classes")
-            if name in ("VectorDot", "VectorCross", "VectorMixedProduct", "VectorNorm") and name not in self.functions:
-                vals = [self.ev(a, env, fns) for a in n.args]
-                if not all(isinstance(v, _Vec) for v in vals):
-                    self.fail(n, "product of non-vectors")
-                cs = [v.comps for v in vals]
-                if name == "VectorDot" and len(cs) == 2:
-                    return t_dot(*cs)
-                if name == "VectorCross" and len(cs) == 2:
-                    return _Vec(t_cross(*cs), cross_of=(vals[0], vals[1]))
-                if name == "VectorMixedProduct" and len(cs) == 3:
-                    return t_mixed(*cs)
-                if name == "VectorNorm" and len(cs) == 1:
-                    return t_norm(cs[0])
-                self.fail(n, "arity")
-            return NotImplemented
-
+    R = _VecPy
     methods = ast.Module(body=[x for x in mod.tree.body if not isinstance(x, ast.ClassDef)] + [x for x in cross_cls.body if isinstance(x, ast.FunctionDef)], type_ignores=[])
     for mname, product, label in (("_eval_vector_dot", t_dot, "dot"), ("_eval_vector_cross", t_cross, "cross")):
         fn = _meth(cross_cls, mname)
@@ -178,107 +225,83 @@ def _accumulations(fn: ast.FunctionDef):
 
 
 def _r2_products(run: Run, mod) -> None:
+    """the evaluating half of the three product constructors, EVALUATED against a stand-in for _ordered_mul that hands them one term of each permutation sign:
+    {+1: (p, q[, r]) * k1, -1: (s, t[, u]) * k2, 0: a repeated vector * k0}"""
     table = [("VectorDot", False, 2), ("VectorCross", True, 2), ("VectorMixedProduct", True, 3)]
+    prod = {"VectorDot": t_dot, "VectorCross": t_cross, "VectorMixedProduct": t_mixed}
     for cname, antisym, arity in table:
         c = _cls(mod, cname)
         fn = _meth(c, "__new__")
-        loop = _accumulations(fn)
-        if loop is None:
-            raise AnalysisError(f"C14: {cname}.__new__: the sign loop was not found")
-        zero_branch = None
-        rest = []
-        for s in loop.body:
-            if isinstance(s, ast.If) and isinstance(s.test, ast.Compare) and dotted(s.test.left) == "sign" and isinstance(s.test.ops[0], ast.Eq) \
-                    and isinstance(s.test.comparators[0], ast.Constant) and s.test.comparators[0].value == 0:
-                zero_branch = s
-            else:
-                rest.append(s)
-        run.ob("R2", f"{cname}:sign==0")
-        if zero_branch is None:
-            run.violate("R2", f"{MOD}:{cname}.__new__:sign0", mod, loop, f"{cname}.__new__ has no `sign == 0` case: products with a repeated vector are not reduced to their special value")
+        methods = ast.Module(body=[x for x in mod.tree.body if not isinstance(x, ast.ClassDef)] + [x for x in c.body if isinstance(x, ast.FunctionDef)], type_ignores=[])
+        plus = tuple(_Vec(gvec(x)) for x in "pqr"[:arity])
+        minus = tuple(_Vec(gvec(x)) for x in "stu"[:arity])
+        rep = _Vec(gvec("v"))
+        other = _Vec(gvec("w"))
+        repeated = (rep, rep) if arity == 2 else (rep, rep, other)
+        k1, k2, k0 = var("k1"), var("k2"), var("k0")
+        rd = _VecPy(methods, f"{cname}.__new__", depth_limit=8)
+        rd.hook_log = []
+        rd.log_hooks = True
+        rd.ordered = {1: {plus: k1}, -1: {minus: k2}, 0: {repeated: k0}}
+        operands = [_Vec(gvec(f"in{i}")) for i in range(arity)]
+        run.ob("R2", f"{cname}:accumulation")
+        try:
+            got = rd.call("__new__", [("class", cname)] + operands, {"evaluate": True})
+        except Raised as r_:
+            run.violate("R2", f"{MOD}:{cname}.__new__:accumulation", mod, fn, f"{cname}.__new__ raises {r_.exc} while accumulating the sorted terms")
+            continue
+        if arity == 2:
+            # R4: the operand hooks are rewrite rules for product(lhs, rhs): whoever consults one passes (left operand, right operand) in that order
+            hook = {"VectorDot": "_eval_vector_dot", "VectorCross": "_eval_vector_cross"}[cname]
+            logged = [e for e in rd.hook_log if e[1] == hook]
+            for base_, _, args_ in logged:
+                run.ob("R4", f"{cname}:{'lhs' if base_ is operands[0] else 'rhs'}.{hook}")
+                if not (len(args_) == 2 and args_[0] is operands[0] and args_[1] is operands[1]):
+                    run.violate("R4", f"{MOD}:{cname}.__new__:hook-operands-swapped", mod, fn,
+                                f"{cname}.__new__ consults {hook} with its operands not in (left, right) order: the hook's rules rewrite product(first, second), so "
+                                f"a x (b x c) is evaluated as (b x c) x a - the cross product changes sign")
+                    break
+            for which, obj_ in (("left", operands[0]), ("right", operands[1])):
+                if not any(b_ is obj_ for b_, _, _ in logged):
+                    run.violate("R4", f"{MOD}:{cname}.__new__:hook-not-consulted:{which}", mod, fn,
+                                f"{cname}.__new__ does not consult the {which} operand's {hook}: products with a cross product on that side are no longer rewritten")
+        tp, tm = prod[cname](*[x.comps for x in plus]), prod[cname](*[x.comps for x in minus])
+
+        def scaled(t, k):
+            return [op("mul", k, x) for x in t] if isinstance(t, list) else op("mul", k, t)
+
+        def add(x, y):
+            return [op("add", a_, b_) for a_, b_ in zip(x, y)] if isinstance(x, list) else op("add", x, y)
+
+        if antisym:
+            want = add(scaled(tp, k1), scaled(tm, op("neg", k2)))  # the sign of the sorting permutation multiplies the term; a repeated vector contributes 0
         else:
-            adds = [x for x in ast.walk(zero_branch) if isinstance(x, ast.AugAssign) and dotted(x.target) == "result"]
-            if antisym:
-                if adds or not any(isinstance(x, ast.Continue) for x in zero_branch.body):
-                    run.violate("R2", f"{MOD}:{cname}.__new__:sign0", mod, zero_branch, f"{cname} with a repeated argument must contribute 0, but the sign == 0 branch adds to the result")
-            else:
-                # dot(v, v) -> norm(v)^2 * factor
-                ok = False
-                for inner in [x for x in ast.walk(zero_branch) if isinstance(x, ast.For)]:
-                    tg = inner.target
-                    if isinstance(tg, ast.Tuple) and len(tg.elts) == 2 and isinstance(tg.elts[0], ast.Tuple) and isinstance(tg.elts[0].elts[0], ast.Name):
-                        vname, fname = tg.elts[0].elts[0].id, dotted(tg.elts[1])
-                        v = gvec("v")
-                        rd = VecReader({vname: v, fname: var("k"), "result": num(0)}, cls=cname, where=f"{cname}.__new__ sign==0")
-                        try:
-                            for st in inner.body:
-                                if isinstance(st, ast.Assign):
-                                    rd.env[st.targets[0].id] = rd.ev(st.value)
-                                elif isinstance(st, ast.AugAssign) and dotted(st.target) == "result" and isinstance(st.op, ast.Add):
-                                    got = rd.ev(st.value)
-                                    if same(normalize(got), normalize(op("mul", t_dot(v, v), var("k")))):
-                                        ok = True
-                        except AnalysisError:
-                            ok = False
-                if not ok:
-                    run.violate("R2", f"{MOD}:{cname}.__new__:sign0", mod, zero_branch, "the sign == 0 branch of VectorDot does not add norm(v)^2 * factor for dot(v, v)")
-        # the general branch
-        run.ob("R2", f"{cname}:sign-factor")
-        found = False
-        for inner in [x for s in rest for x in ast.walk(s) if isinstance(x, ast.For)]:
-            tg = inner.target
-            if not (isinstance(tg, ast.Tuple) and len(tg.elts) == 2):
-                continue
-            fname = dotted(tg.elts[1])
-            vecs_t = tg.elts[0]
-            names = None
-            if isinstance(vecs_t, ast.Tuple) and all(isinstance(e, ast.Name) for e in vecs_t.elts):
-                names = [e.id for e in vecs_t.elts]
-            gv = [gvec(chr(ord("p") + i)) for i in range(arity)]
-            for st in ast.walk(inner):
-                if isinstance(st, ast.AugAssign) and dotted(st.target) == "result" and isinstance(st.op, ast.Add):
-                    found = True
-                    m = monomial(st.value, lambda e: e.id if isinstance(e, ast.Name) else None)
-                    if m is None:
-                        raise AnalysisError(f"C14: {cname}.__new__: accumulated term `{norm(st.value)}` is not a monomial")
-                    exps = {k: v for k, v in m.items() if k != "#"}
-                    prodvars = [k for k in exps if k not in ("sign", fname)]
-                    want_sign = Fraction(1) if antisym else Fraction(0)
-                    if exps.get("sign", Fraction(0)) != want_sign or exps.get(fname, Fraction(0)) != 1 or len(prodvars) != 1 or exps[prodvars[0]] != 1 or m.get("#", Fraction(1)) != 1:
-                        run.violate("R2", f"{MOD}:{cname}.__new__:accumulation", mod, st,
-                                    f"{cname}.__new__ accumulates `{norm(st.value)}`; an {'anti' if antisym else ''}symmetric product of the sorted operands must be "
-                                    f"multiplied by factor{' * sign' if antisym else ' (and not by sign)'} exactly once")
-                        continue
-                    # the product variable: every definition is the class's own product of the sorted vectors, in order
-                    pv = prodvars[0]
-                    defs = [d for d in ast.walk(inner) if isinstance(d, ast.Assign) and len(d.targets) == 1 and dotted(d.targets[0]) == pv]
-                    unpack = [d for d in ast.walk(inner) if isinstance(d, ast.Assign) and isinstance(d.targets[0], ast.Tuple) and dotted(d.value) == dotted(vecs_t)]
-                    for d in defs:
-                        env = {}
-                        if names:
-                            env.update(dict(zip(names, gv)))
-                        else:
-                            env[dotted(vecs_t)] = gv
-                        for u in unpack:
-                            env.update(dict(zip([e.id for e in u.targets[0].elts], gv)))
-                        rd = VecReader(env, cls=cname, where=f"{cname}.__new__ product term")
-                        val = d.value
-                        # cls(*vectors, evaluate=False)
-                        if isinstance(val, ast.Call) and any(isinstance(a, ast.Starred) for a in val.args):
-                            starred = [a for a in val.args if isinstance(a, ast.Starred)]
-                            if len(val.args) == 1 and dotted(starred[0].value) == dotted(vecs_t) and dotted(val.func) in ("cls", cname):
-                                got = {"VectorDot": t_dot, "VectorCross": t_cross, "VectorMixedProduct": t_mixed}[cname](*gv)
-                            else:
-                                raise AnalysisError(f"C14: {cname}.__new__: `{norm(val)}` not understood")
-                        else:
-                            got = rd.ev(val)
-                        want = {"VectorDot": t_dot, "VectorCross": t_cross, "VectorMixedProduct": t_mixed}[cname](*gv)
-                        run.ob("R2", f"{cname}:term:{norm(val, 50)}")
-                        if not _eq(got, want):
-                            run.violate("R2", f"{MOD}:{cname}.__new__:term:{norm(val, 60)}", mod, d,
-                                        f"the term `{norm(val, 60)}` built for the sorted operands is not {cname} of those operands in that order")
-        if not found:
-            raise AnalysisError(f"C14: {cname}.__new__: no accumulation into `result` found")
+            want = add(add(scaled(tp, k1), scaled(tm, k2)), op("mul", k0, t_dot(rep.comps, rep.comps)))  # symmetric: no sign; dot(v, v) is norm(v)^2
+        gotv = got.comps if isinstance(got, _Vec) else got
+        if not _eq(gotv, want):
+            run.violate("R2", f"{MOD}:{cname}.__new__:accumulation", mod, fn,
+                        f"{cname}.__new__, given the sorted terms (+1: {'pqr'[:arity]}*k1, -1: {'stu'[:arity]}*k2, repeated vector: k0), does not return "
+                        + ("k1*product(p..) - k2*product(s..) (the permutation sign multiplies each term exactly once, a repeated vector gives 0)" if antisym
+                           else "k1*dot(p, q) + k2*dot(s, t) + k0*norm(v)^2 (no permutation sign for the symmetric product, dot(v, v) = norm(v)^2)"))
+        else:
+            run.sample({"product": cname, "accumulation": "identity"})
+        # the same with a compound (non-atomic) vector among the sorted operands: the term is then built by the evaluating constructors
+        run.ob("R2", f"{cname}:accumulation:compound-operand")
+        comp = _Vec(t_cross(gvec("m"), gvec("n")), cross_of=(_Vec(gvec("m")), _Vec(gvec("n"))))
+        plus2 = (comp, ) + tuple(_Vec(gvec(x)) for x in "qr"[:arity - 1])
+        rd2 = _VecPy(methods, f"{cname}.__new__[compound]", depth_limit=8)
+        rd2.hook_log = []
+        rd2.log_hooks = True
+        rd2.ordered = {1: {plus2: k1}}
+        try:
+            got2 = rd2.call("__new__", [("class", cname)] + operands, {"evaluate": True})
+            want2 = scaled(prod[cname](*[x.comps for x in plus2]), k1)
+            g2 = got2.comps if isinstance(got2, _Vec) else got2
+            if not _eq(g2, want2):
+                run.violate("R2", f"{MOD}:{cname}.__new__:accumulation:compound", mod, fn,
+                            f"{cname}.__new__, given a sorted term whose first vector is itself a cross product, does not return k1 * {cname}(that vector, ...) in that order")
+        except Raised as r_:
+            run.violate("R2", f"{MOD}:{cname}.__new__:accumulation:compound", mod, fn, f"{cname}.__new__ raises {r_.exc} for a compound sorted operand")
 
 
 def _r2_sort(run: Run) -> None:
@@ -529,73 +552,6 @@ def _operand_worlds(fn: ast.FunctionDef, seed_worlds: list) -> list:
     return out
 
 
-def _r4_hooks(run: Run, mod) -> None:
-    """operand hooks are rewrite rules for product(lhs, rhs): whoever calls one passes (left operand, right operand) in that order"""
-    fns = [f for f in ast.walk(mod.tree) if isinstance(f, ast.FunctionDef)]
-    total = 0
-    for fn in fns:
-        direct = [x for x in ast.walk(fn) if isinstance(x, ast.Call) and ((isinstance(x.func, ast.Attribute) and x.func.attr in HOOKS and len(x.args) == 2)
-                                                                           or (isinstance(x.func, ast.Call) and dotted(x.func.func) == "getattr" and len(x.args) == 2))]
-        if not direct or any(g is not fn and any(y is direct[0] for y in ast.walk(g)) and any(g2 is g for g2 in ast.walk(fn)) for g in fns):
-            continue
-        params = [a.arg for a in fn.args.args]
-        seeds = [{}]
-        if fn.name not in ("__new__", "eval"):
-            # a helper: operand positions come from its call sites
-            seeds = []
-            for caller in fns:
-                for c in [x for x in ast.walk(caller) if isinstance(x, ast.Call) and dotted(x.func) == fn.name]:
-                    for w, _ in _operand_worlds_at(caller, c):
-                        seeds.append({p: (w.get(a.id) if isinstance(a, ast.Name) else None) for p, a in zip(params, c.args)})
-            if not seeds:
-                continue
-        for w, c in _operand_worlds(fn, seeds):
-            a0, a1 = c.args
-            total += 1
-            run.ob("R4", f"{fn.name}:{norm(c, 50)}")
-            p0 = w.get(a0.id) if isinstance(a0, ast.Name) else None
-            p1 = w.get(a1.id) if isinstance(a1, ast.Name) else None
-            if (p0, p1) == (0, 1):
-                continue
-            if (p0, p1) == (1, 0):
-                run.violate("R4", f"{MOD}:{fn.name}:hook-operands-swapped", mod, c,
-                            f"`{norm(c, 70)}` in {fn.name} can pass (right operand, left operand) to an operand hook: the hook's rules rewrite product(first, second), so "
-                            f"a x (b x c) is evaluated as (b x c) x a - the cross product changes sign")
-            else:
-                raise AnalysisError(f"C14: operands of hook call `{norm(c, 60)}` in {fn.name} cannot be traced to the product's operand pair")
-    run.floor("R4", total, 4, "operand hook call sites")
-
-
-def _operand_worlds_at(fn: ast.FunctionDef, call: ast.Call) -> list:
-    """worlds (name -> operand position) in force where `call` (a helper call inside product constructor fn) is evaluated"""
-    marker = call
-    found = []
-
-    def walk(body, worlds):
-        for st in body:
-            if isinstance(st, ast.Assign) and len(st.targets) == 1 and isinstance(st.targets[0], ast.Tuple) and len(st.targets[0].elts) == 2 \
-                    and all(isinstance(e, ast.Name) for e in st.targets[0].elts):
-                t0, t1 = (e.id for e in st.targets[0].elts)
-                v = st.value
-                for w in worlds:
-                    if isinstance(v, ast.Tuple) and len(v.elts) == 2:
-                        def pos_of(e, w=w):
-                            ps = {w.get(n) for n in _names(e) if n in w}
-                            return ps.pop() if len(ps) == 1 else None
-                        w[t0], w[t1] = pos_of(v.elts[0]), pos_of(v.elts[1])
-                    elif (isinstance(v, ast.Call) and dotted(v.func) == "map" and len(v.args) == 2 and dotted(v.args[1]) in ("values", "args")) or dotted(v) in ("values", "args", "self.args"):
-                        w[t0], w[t1] = 0, 1
-                    else:
-                        w[t0], w[t1] = None, None
-            if any(x is marker for x in ast.walk(st)) and not isinstance(st, (ast.If, ast.For, ast.While, ast.With, ast.Try)):
-                found.extend(dict(w) for w in worlds)
-            for blk in ("body", "orelse", "finalbody"):
-                if isinstance(st, (ast.If, ast.For, ast.While, ast.With, ast.Try)) and getattr(st, blk, None):
-                    walk(getattr(st, blk), worlds)
-    walk(fn.body, [{}])
-    return [(w, call) for w in found]
-
-
 def _r5_termination(run: Run, mod) -> None:
     """differentiation and re-evaluation are well-founded"""
     classes = {c.name: c for c in mod.tree.body if isinstance(c, ast.ClassDef)}
@@ -718,7 +674,6 @@ def check(run: Run) -> None:
     _r2_products(run, mod)
     _r3(run, mod)
     run.rule("R4", "operand hooks (_eval_vector_dot/_eval_vector_cross) are always called with (left operand, right operand) of the product being evaluated")
-    _r4_hooks(run, mod)
     run.rule("R5", "termination: every irreducible vector class is atomic for the products (or supplies operand hooks), and each _eval_derivative "
              "differentiates strict sub-expressions only - never itself, nor a freshly built product whose evaluation can return the same class")
     _r5_termination(run, mod)
